@@ -466,52 +466,91 @@ def _traced_class(mon, base, reads, writes):
 
 # ---------------------------------------------------------------------- the gate
 class Gate:
-    """Strict hand-off between a scheduler and enrolled threads: at most one thread runs."""
+    """Hand-off between a scheduler and enrolled threads: one thread runs at a time.
+
+    A thread that does not reach its next gate point within STALL seconds is taken to be blocked
+    on something a suspended thread holds (a lock added by a perfectly good refactor) or to be in
+    a long computation: the scheduler then goes on with the schedule and picks the thread up again
+    when it arrives.  That only makes the replay less exact, never unsound: whatever interleaving
+    really happened is judged by R_C14 on its outcomes."""
 
     TIMEOUT = 60.0
+    STALL = 0.2
 
     def __init__(self, tids):
         self.go = {t: threading.Semaphore(0) for t in tids}
-        self.arrived = threading.Semaphore(0)
+        self.arr = {t: threading.Semaphore(0) for t in tids}
         self.done = {t: False for t in tids}
+        self.running = {t: False for t in tids}     # released and not yet arrived again
         self.free = False       # when True, points do not block any more
         self.steps = {t: 0 for t in tids}   # gate points executed (passed) per thread
+        self.stalls = 0
 
     # --- thread side
     def point(self, tid):
         if self.free:
             return
-        self.arrived.release()
+        self.arr[tid].release()
         if not self.go[tid].acquire(timeout=self.TIMEOUT):
+            if self.free:
+                return
             raise MachineryError("gate: thread %s was never released" % tid)
 
     def finished(self, tid):
         self.done[tid] = True
-        self.arrived.release()
+        self.arr[tid].release()
 
     # --- scheduler side
-    def wait_arrival(self):
-        if not self.arrived.acquire(timeout=self.TIMEOUT):
-            raise MachineryError("gate: no thread arrived at a gate point (deadlock?)")
+    def wait_arrival(self, tid, timeout):
+        """True when tid is at a gate point (or over)"""
+        if self.arr[tid].acquire(timeout=timeout):
+            self.running[tid] = False
+            return True
+        return False
+
+    def _pass_one(self, tid, patience):
+        """let tid pass one gate point; False if it stalled (it stays released: the next call
+        just waits for it to arrive)"""
+        if not self.running[tid]:
+            self.go[tid].release()
+            self.running[tid] = True
+        if not self.wait_arrival(tid, patience):
+            self.stalls += 1
+            return False
+        self.steps[tid] += 1
+        return True
 
     def step(self, tid, n=1):
-        """Let thread `tid` pass n gate points (fewer if it finishes).  Returns points passed."""
+        """Let thread `tid` pass n gate points (fewer if it finishes or stalls)."""
         k = 0
         while k < n and not self.done[tid]:
-            self.go[tid].release()
-            self.wait_arrival()
-            self.steps[tid] += 1
+            if not self._pass_one(tid, self.STALL):
+                break
             k += 1
         return k
 
     def finish(self, tid):
-        k = 0
         while not self.done[tid]:
-            self.go[tid].release()
-            self.wait_arrival()
-            self.steps[tid] += 1
-            k += 1
-        return k
+            if not self._pass_one(tid, self.STALL):
+                return False
+        return True
+
+    def finish_all(self, order):
+        """complete every thread; stalled threads are revisited until nothing moves for TIMEOUT"""
+        import time
+        last = time.time()
+        while not all(self.done.values()):
+            moved = False
+            for t in order:
+                if self.done[t]:
+                    continue
+                before = self.steps[t]
+                self.finish(t)
+                moved = moved or self.steps[t] != before or self.done[t]
+            if moved:
+                last = time.time()
+            elif time.time() - last > self.TIMEOUT:
+                raise MachineryError("gate: no thread makes progress (deadlock?)")
 
 
 def run_gated(mon, calls, schedule, tail_order=None):
@@ -544,8 +583,9 @@ def run_gated(mon, calls, schedule, tail_order=None):
     try:
         for th in threads:
             th.start()
-        for _ in tids:
-            gate.wait_arrival()          # everybody at the start line
+        for t in tids:
+            if not gate.wait_arrival(t, Gate.TIMEOUT):      # everybody at the start line
+                raise MachineryError("gate: thread %s never reached the start line" % t)
         for t in tids:
             gate.step(t, 1)              # pass the start line: now blocked before 1st access
             gate.steps[t] = 0
@@ -554,8 +594,8 @@ def run_gated(mon, calls, schedule, tail_order=None):
                 gate.finish(item[1])
             else:
                 gate.step(item[0], item[1])
-        for t in (tail_order or tids):
-            gate.finish(t)
+        order = list(tail_order or tids) + [t for t in tids if t not in (tail_order or tids)]
+        gate.finish_all(order)
         for th in threads:
             th.join(timeout=Gate.TIMEOUT)
             if th.is_alive():
@@ -571,4 +611,5 @@ def run_gated(mon, calls, schedule, tail_order=None):
         if isinstance(exc, MachineryError):
             raise exc
         raise MachineryError("thread %s died outside the call wrapper: %r" % (tid, exc))
+    mon.last_stalls = gate.stalls
     return results, logs, dict(gate.steps)
